@@ -140,6 +140,15 @@ pub fn exec(case: &Case, ctx: &mut Ctx, rec: &mut Case) -> Hist {
                     ctx.stats.count(&format!("fault.F9_tamper.{kind:?}"));
                 }
             }
+            Op::Plant { entry } => {
+                let p = env.root.join(entry.path());
+                if p.is_dir() && !p.is_symlink() {
+                    let _ = std::fs::remove_dir_all(&p);
+                } else {
+                    let _ = std::fs::remove_file(&p);
+                }
+                tree::plant_entry(&env.root, entry);
+            }
             Op::Sentinel => tree::set_sentinel(&env.root),
             Op::Checkpoint => checkpoint = Some(tree::snapshot(&env.root)),
             Op::Rollback => {
@@ -706,6 +715,7 @@ pub fn run(case: &Case, ctx: &mut Ctx) -> CaseOutcome {
                 Op::Write{path, ..} => format!("write {path}"),
                 Op::Remove{path} => format!("remove {path}"),
                 Op::Tamper{path, kind, at} => format!("tamper {path} {kind:?}@{at}"),
+                Op::Plant{entry} => format!("plant {entry:?}"),
                 Op::Sentinel => "sentinel".into(),
                 Op::Checkpoint => "checkpoint".into(),
                 Op::Rollback => "rollback".into(),
